@@ -30,6 +30,8 @@ fn oracle_scan<T: PartialOrd + Copy>(x: &[T], q: T) -> usize {
 trait Ax: Copy + PartialOrd + std::fmt::Debug + 'static {
     const NAME: &'static str;
     fn lookup(x: &Array1<Self>, q: Self) -> Result<usize, String>;
+    /// the same lookup through a reversed view of the reversed axis / an every-second-element view
+    fn lookup_view(rev: &Array1<Self>, big: &Array1<Self>, which: u8, q: Self) -> Result<usize, String>;
     fn show(self) -> String;
 }
 macro_rules! impl_ax {
@@ -38,6 +40,15 @@ macro_rules! impl_ax {
             const NAME: &'static str = $n;
             fn lookup(x: &Array1<Self>, q: Self) -> Result<usize, String> {
                 guard(|| x.get_lower_index(q))
+            }
+            fn lookup_view(rev: &Array1<Self>, big: &Array1<Self>, which: u8, q: Self) -> Result<usize, String> {
+                if which == 0 {
+                    let v = rev.slice(vh::ndarray::s![..;-1]);
+                    guard(|| v.get_lower_index(q))
+                } else {
+                    let v = big.slice(vh::ndarray::s![..;2]);
+                    guard(|| v.get_lower_index(q))
+                }
             }
             fn show(self) -> String {
                 format!("{:?}", self)
@@ -226,6 +237,36 @@ fn float_case<T: Elem + Ax>(case: u64, args: &Args, ev: &mut Ev) {
             }
         }
         check_one(ev, case, &arr, &xs, *q, cl, "get_lower_index");
+    }
+    // the same axis as a reversed (negative stride) view and as an every-second-element view
+    {
+        let rev: Array1<T> = xs.iter().rev().copied().collect();
+        let mut big: Array1<T> = Array1::from_elem(2 * n, xs[0]);
+        for (i, v) in xs.iter().enumerate() {
+            big[2 * i] = *v;
+        }
+        for (k, (q, cl)) in qs.iter().enumerate().take(160) {
+            let which = (k % 2) as u8;
+            ev.add("lookups_via_views", 1);
+            let want = oracle(&xs, *q);
+            match <T as Ax>::lookup_view(&rev, &big, which, *q) {
+                Ok(g) if g == want => {}
+                o => {
+                    ev.violation(
+                        "C11:wrong-interval-through-view",
+                        &format!(
+                            "{} axis (len {n}) as {} view, q={q:?} [{cl}]: expected {want}, got {:?}",
+                            <T as Flt>::NAME,
+                            if which == 0 { "reversed" } else { "strided" },
+                            o
+                        ),
+                        case,
+                        J::obj().set("axis", vh::events::hexes(xs.iter().copied())).set("q", q.hex()),
+                    );
+                    break;
+                }
+            }
+        }
     }
     // through the interpolators (their axes are validated copies of the same values)
     if n <= 1000 && case % 3 == 0 {
